@@ -154,6 +154,11 @@ func runOne(id, tier, repo, verif string) (status int) {
 			// normalisation fallback (inline.go): helpers that are new relative to known_funcs.txt are inlined into an
 			// in-memory copy and the same rules are applied to that copy
 			if ir := inlineNewHelpers(repo); ir.Overlay != nil {
+				if d := os.Getenv("VERIF_DUMP_NORM"); d != "" {
+					for name, src := range ir.Overlay {
+						os.WriteFile(filepath.Join(d, filepath.Base(name)), src, 0o644)
+					}
+				}
 				c2 := newCtx(id, tier, repo, verif)
 				c2.Seed = c.Seed
 				if err := c2.loadKnown(filepath.Join(verif, "KNOWN_FINDINGS.txt")); err == nil {
